@@ -247,7 +247,6 @@ func hasAtom(as []atomFact, v ssa.Value, val bool) bool {
 	return false
 }
 
-
 // calleeAtoms: for a call g(args) of an unexported, non-recursive boolean function of the module, the atoms of
 // g that hold on every way g can return `pol` (constant returns: the atoms on every path to them in g's split
 // graph; expression returns: additionally what the expression being pol implies). The atoms are values of g;
